@@ -344,7 +344,8 @@ def r2f_flag_ordering(chk):
                 'flag stores/loads with a memory order: %d' % len(sites))
     for f, c, kind, arg in sites:
         mo = memory_order_of(arg)
-        good = {'store': (None, 'memory_order_release', 'memory_order_seq_cst', 'release', 'seq_cst'),
+        good = {'store': (None, 'memory_order_release', 'memory_order_seq_cst', 'memory_order_acq_rel', 'release',
+                          'seq_cst', 'acq_rel'),
                 'load': (None, 'memory_order_acquire', 'memory_order_seq_cst', 'acquire', 'seq_cst')}[kind]
         chk.check(mo in good, 'R2f', f.name,
                   'the %s of the active flag %s' % (kind, 'releases' if kind == 'store' else 'acquires'), f.loc(c),
